@@ -56,6 +56,14 @@ def rw_rename(rng, spec, obs, poi):
             for m in smp["modifiers"]:
                 if m["name"] != "lumi":
                     mm.setdefault(m["name"], rng.choice(["n_", "Zz", "q"]) + m["name"])
+    # half of the renames reverse the alphabetical order of the modifier names (and, independently, of the sample and
+    # channel names): whatever pyhf orders by name then runs against whatever it orders by position in the layout, in the
+    # original or in its twin, as soon as the model has two sets of one family
+    for mapping in (mm, sm, cm):
+        if len(mapping) >= 2 and rng.random() < 0.5:
+            keys = sorted(mapping)
+            for i, k in enumerate(keys):
+                mapping[k] = f"r{len(keys) - i:02d}_{k}"
     for c in s["channels"]:
         c["name"] = cm[c["name"]]
         for smp in c["samples"]:
@@ -155,6 +163,12 @@ def rw_split_sample(rng, spec, obs, poi):
     fr = [f] * nb
     if has_stat and rng.random() < 0.6:
         fr[rng.randrange(nb)] = 0.0
+    # the MC-stat uncertainty need not be shared out like the yield: only the quadrature sum counts, so all of it may
+    # sit on one part while the other carries the modifier with zero uncertainty in every bin (it is still scaled by
+    # gamma and still belongs to the nominal total the relative width refers to)
+    g = f
+    if has_stat and rng.random() < 0.4:
+        g = rng.choice([0.0, 1.0])
     parts = []
     for tag, first in (("_m1", True), ("_m2", False)):
         frac = [x if first else 1 - x for x in fr]
@@ -165,12 +179,12 @@ def rw_split_sample(rng, spec, obs, poi):
                 m2["data"] = {"hi_data": [v * q for v, q in zip(m["data"]["hi_data"], frac)], "lo_data": [v * q for v, q in zip(m["data"]["lo_data"], frac)]}
             if m["type"] == "staterror":
                 # absolute MC uncertainties add in quadrature: u1 = u sqrt(f), u2 = u sqrt(1-f)
-                m2["data"] = [u * math.sqrt(f if first else 1 - f) for u in m["data"]]
+                m2["data"] = [u * math.sqrt(g if first else 1 - g) for u in m["data"]]
             mods.append(m2)
         parts.append({"name": smp["name"] + tag, "data": [v * q for v, q in zip(smp["data"], frac)], "modifiers": mods})
     i = c["samples"].index(smp)
     c["samples"][i:i + 1] = parts
-    return s, dict(obs), poi, {"kind": "split-sample(merge inverse)" + (", one part negative" if not 0 <= f <= 1 else "") + (", one part with zero yield under staterror" if 0.0 in fr else (", staterror in quadrature" if has_stat else ""))}
+    return s, dict(obs), poi, {"kind": "split-sample(merge inverse)" + (", one part negative" if not 0 <= f <= 1 else "") + (", one part with zero yield under staterror" if 0.0 in fr else (", staterror in quadrature" if has_stat else "")) + (", all MC-stat uncertainty on one part" if has_stat and g != f else "")}
 
 
 def rw_scale_signal(rng, spec, obs, poi):
@@ -441,6 +455,17 @@ def make_case(rng, backend, tier):
                     if m["type"] == "histosys":
                         m["data"] = {"hi_data": [gen._round(v * 1.06, 4) for v in s["data"]], "lo_data": [gen._round(v * 0.95, 4) for v in s["data"]]}
                 s["modifiers"] = [m for m in s["modifiers"] if m["type"] not in ("staterror", "shapesys")]
+    # a third of the models get two or three shapesys on different background slots, with different relative
+    # uncertainties and names that do not follow the layout order: several sets of one constraint family whose
+    # name order and position order disagree (the generator alone yields two Poisson-constrained sets in ~1 model of 25)
+    if rng.random() < 0.33:
+        slots = [s for c in spec["channels"] for s in c["samples"] if s["name"] != "signal" and not any(m["type"] == "shapesys" for m in s["modifiers"])]
+        if len(slots) >= 2:
+            slots = rng.sample(slots, min(len(slots), rng.choice([2, 2, 3])))
+            names = rng.sample(["sh_a", "sh_k", "sh_t", "Sh_B", "sh_z"], len(slots))
+            for smp, nm in zip(slots, names):
+                rel = rng.choice([0.04, 0.08, 0.15, 0.25])
+                smp["modifiers"].append({"name": nm, "type": "shapesys", "data": [gen._round(max(v, 0.5) * rel * rng.uniform(0.7, 1.4), 4) for v in smp["data"]]})
     # a shapesys bin without uncertainty: pyhf itself holds that gamma constant, so every conditional fit has two
     # constants (the POI and that gamma)
     if rng.random() < 0.35:
